@@ -1,13 +1,13 @@
 (* Props/C09.v — property C09: dynamic linking information is exact, with or without
    section headers.  Only statements, closed by [exact]; proofs live in
-   Proofs/C09Tables.v, C09Tags.v, C09Hash.v, C09Views.v, C09Relocs.v, C09Syms.v, C09Seg.v (C09Examples.v: the inputs of the Examples).
+   Proofs/C09Tables.v, C09Tags.v, C09Hash.v, C09Views.v, C09Relocs.v, C09Syms.v, C09Seg.v, C09History.v (C09Examples.v: the inputs of the Examples).
    Model: Model/C09Dynamic.v (transliteration of elf/dynamic.py, elf/hash.py
    get_number_of_symbols, the parts of elf/elffile.py, sections.py, relocation.py the
    Dynamic classes call; record layouts and decoding dicts are regenerated from the live
    code into Gen/ElfLayouts.v).  Meaning: Spec/C09Dyn.v (gABI dynamic section, hash
    tables, program header; GNU hash format). *)
 From PV Require Import Base.Outcome Base.Fmt Base.Enum Gen.ElfLayouts Spec.ElfGabi Spec.C09Dyn Model.C09Dynamic.
-From PV Require Import Proofs.C09Tables Proofs.C09Tags Proofs.C09Hash Proofs.C09Views Proofs.C09Relocs Proofs.C09Syms Proofs.C09Seg Proofs.C09Examples.
+From PV Require Import Proofs.C09Tables Proofs.C09Tags Proofs.C09Hash Proofs.C09Views Proofs.C09Relocs Proofs.C09Syms Proofs.C09Seg Proofs.C09History Proofs.C09Examples.
 Open Scope string_scope.
 Open Scope list_scope.
 Open Scope Z_scope.
@@ -255,3 +255,33 @@ Example C09_segment_view_alone_nonvacuous :
   Ok [(EN "DT_NEEDED", 1, Some [76; 73; 66; 67]); (EN "DT_STRTAB", 4362, None); (EN "DT_STRSZ", 10, None);
       (EN "DT_NULL", 0, None)].
 Proof. vm_compute. repeat split. Qed.
+
+(* ---- histories on ONE object: the stateful model of Dynamic (the _num_tags cache that _get_tag
+   consults, the suspended _iter_tags generators with their type filter and next index) answers EVERY
+   history of calls - walks started, advanced one tag at a time and interleaved in any order with
+   num_tags() and get_tag(n) - exactly as the reference does, for which the array is the fixed list of
+   entries up to and including DT_NULL: an interrupted walk resumes where it stood, nothing is lost,
+   num_tags() is the length of the list, get_tag(n) its n-th element or IndexError (invariant lifted
+   over the run: the cache is unset or holds the true count, every suspended walk stands at a position
+   of the list) *)
+Theorem C09_history_exact : forall f dy, dy_empty dy = false ->
+  forall ts, raw_tags f dy = Ok ts ->
+  forall ops, Forall hop_ok ops ->
+  hrun f dy (dst_init dy) ops = rrun rawtag tmatch ts [] ops.
+Proof. exact history_exact_init. Qed.
+Print Assumptions C09_history_exact.
+
+Example C09_history_exact_nonvacuous :
+  let dy := mkDyn 176 false None in
+  let ops := [HStart None; HNext 0; HNext 0; HNumTags; HStart (Some "DT_NEEDED"); HNext 1; HGetTag 4; HGetTag 5;
+              HNext 0; HNext 0; HNext 0; HNext 0; HNext 1; HNext 1] in
+  dy_empty dy = false /\ Forall hop_ok ops /\
+  (exists ts, raw_tags ex_f dy = Ok ts /\ length ts = 5%nat) /\
+  hrun ex_f dy (dst_init dy) ops =
+  [AStarted; ATag (EN "DT_NEEDED", 1); ATag (EN "DT_SONAME", 6); ANum 5; AStarted; ATag (EN "DT_NEEDED", 1);
+   ATag (EN "DT_NULL", 0); AErr (EPy "IndexError"); ATag (EN "DT_STRTAB", 4368); ATag (EN "DT_NEEDED", 1);
+   ATag (EN "DT_NULL", 0); AStop; ATag (EN "DT_NEEDED", 1); AStop].
+Proof.
+  cbv zeta. split; [reflexivity|]. split; [repeat constructor; cbn; lia|].
+  split; [eexists; split; vm_compute; reflexivity|]. vm_compute. reflexivity.
+Qed.
